@@ -10,6 +10,7 @@ LEVEL = "exploration"
 ENV = {"x64": False, "devices": 8}
 BUDGET = {"quick": 150, "thorough": 3000}
 SHRINK_S = {"quick": 12, "thorough": 120}      # every evaluation compiles several pmaps: keep shrinking short
+TRACE_CASES = True      # expensive cases: record the case in flight so a hang can be named
 RULE = (
     "Hypothesis-built trees (1-3 leaves, blocked so that the number N of "
     "statistics ranges over 1..~30) x mode {full, int16-quantised, compressed "
@@ -41,9 +42,18 @@ def _case(draw, kinds):
   nleaves = draw(st.sampled_from([1, 2, 2, 3]))
   B = draw(st.sampled_from([2, 3, 4]))
   shapes = []
+  def _n(shape):       # number of statistics a leaf contributes (blocks x preconditioned axes)
+    n = len(shape)
+    for d in shape:
+      n *= -(-d // B)
+    return n
   for _ in range(nleaves):
     r = draw(st.sampled_from([1, 2, 2, 3]))
-    shapes.append([draw(st.integers(1, 9)) for _ in range(r)])
+    shape = [draw(st.integers(1, 9)) for _ in range(r)]
+    # keep the total number of statistics <= ~40: hundreds of statistics make one pmap compile take many minutes
+    while sum(_n(s) for s in shapes) + _n(shape) > 40 and max(shape) > 1:
+      shape[shape.index(max(shape))] = max(1, max(shape) - B)
+    shapes.append(shape)
   o = {"block_size": B, "start_preconditioning_step": draw(st.sampled_from([0, 1])),
        "preconditioning_compute_steps": draw(st.sampled_from([1, 2])),
        "graft_type": draw(st.sampled_from(["SGD", "RMSPROP", "NONE"])),
